@@ -13,6 +13,6 @@ theorem inv : Prio.PRInv (NaiveExample.world false) {} [] := by
   rcases hp with rfl | rfl <;> simp [Pool.fresh] at hc
 
 theorem runs (arrivals : List (List Nat)) (h : ∀ newP ∈ arrivals, newP.Nodup) : ∃ out, Prio.loop (NaiveExample.world false) {} [] arrivals = .ok out :=
-  Prio.run_single_never_raises arrivals _ _ _ h inv
+  let ⟨w', st', res', h', _⟩ := Prio.run_single_never_raises arrivals _ _ _ h inv; ⟨(w', st', res'), h'⟩
 
 end Eudoxia.PriorityExample
